@@ -108,6 +108,18 @@ def ndarray_body(case):
                 got = [(k, obj[k]) for k in obj.pairs()]
                 want = [(k, Y.pair_text(v)) for k, v in hdr]
                 check(got == want, label + ':pairs', lambda: dict(got=got, want=want))
+        # the same file through the astropy Table reader, one table at a time: its rows, and the header pairs (only those) as meta
+        from pydl.pydlutils.yanny import read_table_yanny
+        for t in tables[:2]:
+            if not t['rows']:
+                continue
+            tb = call(read_table_yanny, fn, tablename=t['name'])
+            with judge('table-reader'):
+                Y.compare_table(tb.as_array(), t, check, 'table-reader')
+                got = [(k, tb.meta[k]) for k in tb.meta]
+                want = [(k, Y.pair_text(v)) for k, v in hdr]
+                check([k for k, v in got] == [k for k, v in want] and all(isinstance(v, str) and v == w for (k, v), (k2, w) in zip(got, want)), 'table-reader:meta',
+                      lambda: dict(got=[(k, str(v)[:40]) for k, v in got], want=want, tables=[q['name'] for q in tables]))
 
 
 def ndarray_classify(case):
